@@ -313,6 +313,13 @@ fn probe_inner(name: &str, n: u64, payload: bool) -> String {
         "generic_fixed" => generic(&format!(r#"{{"type":"fixed","name":"F","size":{n}}}"#), if payload { vec![b'a'; n as usize] } else { vec![] }),
         "generic_array" => generic(r#"{"type":"array","items":"int"}"#, varint(n)),
         "generic_map" => generic(r#"{"type":"map","values":"int"}"#, varint(n)),
+        "generic_array_two_blocks" => {
+            // two blocks of n zero-width items each: the limit applies to the array, not to a block
+            let mut d = varint(n);
+            d.extend(varint(n));
+            d.extend(varint(0));
+            generic(r#"{"type":"array","items":"null"}"#, d)
+        }
         "generic_array_negative_count" => {
             // negative count + byte size
             let mut d = vec![];
@@ -620,6 +627,14 @@ pub fn run_child() -> ! {
                     cs.push(c);
                 }
             }
+            // an array in two blocks that fit one by one but not together
+            if w >= vsize && w <= (16 << 20) {
+                let per_block = w / vsize;
+                enforce.push(("generic_array_two_blocks", per_block, true, probe("generic_array_two_blocks", per_block, true)));
+                if per_block >= 2 {
+                    enforce.push(("generic_array_two_blocks", per_block / 2, true, probe("generic_array_two_blocks", per_block / 2, true)));
+                }
+            }
             for c in cs {
                 {
                     for name in COUNT_PROBES {
@@ -785,7 +800,13 @@ pub fn judge(sched: &Schedule, rep: &Js) -> Result<String, Fail> {
                 return Err(Fail::new(format!("C19/panic/probe/{name}"), format!("declared {n} under limit {wv}: {out}")).with(det(vec![])));
             }
             // Some(true) = must pass the limit, Some(false) = must be refused by it, None = unspecified
-            let expect: Option<bool> = if EXACT_PROBES.contains(&name) || CODEC_PROBES.contains(&name) {
+            let expect: Option<bool> = if name == "generic_array_two_blocks" {
+                // 2n items in all: refused when they need more than the limit, accepted when they fit
+                match n.checked_mul(2 * vsize) {
+                    Some(b) if b <= wv => Some(true),
+                    _ => Some(false),
+                }
+            } else if EXACT_PROBES.contains(&name) || CODEC_PROBES.contains(&name) {
                 Some(n <= wv)
             } else if name == "container_block_size" {
                 if wv < 4096 { None } else { Some(n <= wv) }
